@@ -81,6 +81,10 @@ def to_sx(v):
         return "(D" + "".join(" (%s %s)" % (to_sx(k), to_sx(x)) for k, x in v.items()) + ")"
     if t is L.D:
         return "(DC %s" % s("D") + "".join(" " + to_sx(getattr(v, f.name)) for f in dataclasses.fields(v)) + ")"
+    if t is L.Plan:
+        return "(O %s %s %s)" % (s("Plan"), to_sx(v.n), to_sx(v.kind))
+    if getattr(v, "__func__", None) is L.Plan.steps and type(getattr(v, "__self__", None)) is L.Plan:
+        return "(O %s %s %s)" % (s("Plan.steps"), to_sx(v.__self__.n), to_sx(v.__self__.kind))
     if isinstance(v, BaseException):
         c, m = err_canon(v)
         return "(E %s %s)" % (s(c), s(m))
@@ -195,6 +199,12 @@ def from_tree(t):
         return L.PYFUNCS[a[0]]
     if h is True:                     # (T name): the head atom T parses as True
         return _registry_task(a[0])
+    if h == "O":
+        if a[0] == "Plan":
+            return L.Plan(f(a[1]), f(a[2]))
+        if a[0] == "Plan.steps":
+            return L.Plan(f(a[1]), f(a[2])).steps
+        raise Unsupported("object " + repr(a[0]))
     if h == "P":
         return _registry_task(a[0]).partial(*[f(x) for x in a[1]], **{k: f(v) for k, v in a[2]})
     if h == "V":
@@ -397,6 +407,31 @@ class Gen:
         if k == 5:
             return self.t("joiner")(self.t("fork_deep")(r.randrange(0, 2), r.choice(KINDS)))
         return self.t("first")(self.t("join_all")([self.t("fork_seq")(2), self.t("fork_map")(2)]))
+
+    def lazy_container(self, d):
+        """a lazy operator (call of a task-returned helper, attribute + method call or item lookup on a task-returned object)
+        whose VALUE is a container of task calls, some failing, bare or under catch: reduced like any value"""
+        r = self.rng
+        self.f("lazy-operator-returns-container")
+        kind = r.choice([None, None, "V", "K", "L"])
+        k = r.randrange(7)
+        if k == 0:
+            e = self.t("identity")(L.py_fan)(r.randrange(0, 4))
+        elif k == 1:
+            e = self.t("first")([L.py_plan, 0])(self.lit(), kind)
+        elif k == 2:
+            e = self.t("mkplan")(r.randrange(0, 3), kind).steps()
+        elif k == 3:
+            e = self.t("mkplan")(r.randrange(0, 3), kind)[self.lit()]
+        elif k == 4:
+            e = self.t("total")(self.t("identity")(L.py_fan)(r.randrange(1, 4)))
+        elif k == 5:
+            e = [self.t("mkplan")(1)[0], self.t("const")(L.py_fan, self.int(max(d - 1, 0)))(2)]
+        else:
+            e = self.t("identity")(self.t("mkplan")(2, kind).steps)()
+        if r.random() < 0.35:
+            return catch(e, self.classes(), self.t("rec_val"))
+        return e
 
     def shared_failing(self, d):
         """a FAILING term X used twice under one parent: first where its failure is absorbed (catch / catch_all / a thread that
@@ -845,6 +880,8 @@ class Gen:
             return self.fork_multi(depth)
         if self.rng.random() < 0.06:
             return self.shared_failing(depth)
+        if self.rng.random() < 0.06:
+            return self.lazy_container(depth)
         k = self.rng.randrange(10)
         if k <= 3:
             return self.int(depth)
